@@ -3,10 +3,18 @@ source; tools/mkmanifest.py regenerates the manifest from this)."""
 LEVELS = {
     'C03': 'proof',
     'C04': 'proof',
+    'C20': 'proof',
 }
 EXPLAIN = {}
 NOT_CLAIMED = {}
 CLAIMS = {
+    'C20': dict(
+        engine='symnp (E2)',
+        design_ref='DESIGN.md §6 C20',
+        technique='contract-based deductive verification: sidecar contracts on the real constructors, cos/sin/arccos/arctan2 as uninterpreted functions with their defining axioms; two clauses bounded (run-time contract)',
+        text='Angle constructors (2-D, x/y/z, degrees/radians), quaternion -> rotation, about-centre helpers (point clouds, meshes, images; affine, rotation, scale, projective, opaque map), Scale factory and texture-coordinate transforms are proved for all real parameters. 2-D reported angle proved on the counter-clockwise half; the clockwise half is a recorded known finding. Quaternion round trip and 3-D axis-angle are bounded stand-ins (seeded native runs), not counted as proved.',
+        note='cos/sin uninterpreted with c^2+s^2=1; pi only bounded; eigh/eig based clauses (quaternion round trip, 3-D axis-angle) are bounded run-time checks.',
+    ),
     'C04': dict(
         engine='symnp (E2)',
         design_ref='DESIGN.md §6 C04',
